@@ -124,14 +124,12 @@ func checkRangeRouting(p *Program, r *Report) {
 	}
 	calls := false
 	callsGet := false
-	for _, c := range callsIn(ig) {
-		if f := calleeOf(c); f != nil {
-			if f == tg {
-				calls = true
-			}
-			if f == p.Method(p.Trie, "SlimTrie", "Get") {
-				callsGet = true
-			}
+	for _, f := range libraryTargets(p, ig) {
+		if f == tg {
+			calls = true
+		}
+		if f == p.Method(p.Trie, "SlimTrie", "Get") {
+			callsGet = true
 		}
 	}
 	r.Check(calls && !callsGet, "(*index.SlimIndex).RangeGet routing", p.Pos(ig.Pos()), "calls (*SlimTrie).RangeGet", "does not obtain its offset from (*SlimTrie).RangeGet only")
@@ -193,7 +191,7 @@ func init() { checks["C02"] = checkC02 }
 // reported.
 func checkKeepMask(p *Program, r *Report) {
 	r.Rule("C02.keepmask", "E6+CFG", "the keep mask compares every adjacent pair of values", 1)
-	var KF *ssa.Function
+	var cands []*ssa.Function
 	for _, f := range p.FuncsOf(triePath) {
 		if !trieScope(f) || f.Synthetic != "" || f.Signature.Results().Len() != 1 {
 			continue
@@ -203,16 +201,33 @@ func checkKeepMask(p *Program, r *Report) {
 		}
 		for _, prm := range f.Params {
 			if sl, ok := prm.Type().Underlying().(*types.Slice); ok && isByteSlice(sl.Elem()) {
-				KF = f
+				cands = append(cands, f)
+				break
 			}
 		}
 	}
-	if KF == nil {
+	if len(cands) == 0 {
 		r.Unk("keep mask builder", "", "no function of package trie builds a []bool from [][]byte values (anchor not found)")
 		return
 	}
+	// the mask may be filled in the builder itself or in a helper it delegates the de-duplicating part to
+	var bad []string
+	nCmp := 0
+	var names []string
+	for _, KF := range cands {
+		b2, n2 := keepMaskIn(p, r, KF)
+		bad = append(bad, b2...)
+		nCmp += n2
+		names = append(names, shortFn(KF))
+	}
+	if nCmp == 0 && len(bad) == 0 {
+		bad = append(bad, "no store into the mask compares a record's value with its predecessor's")
+	}
+	r.Check(len(bad) == 0, "keep mask built by "+strings.Join(names, " / "), p.Pos(cands[0].Pos()), "every entry is true or values[i-1] != values[i] for i = 1..n-1, step 1, unconditional", strings.Join(dedupStrings(sortStr(bad)), "; "))
+}
+
+func keepMaskIn(p *Program, r *Report, KF *ssa.Function) ([]string, int) {
 	r.Func(shortFn(KF))
-	construct := "keep mask built by " + shortFn(KF)
 	var valuesPrm *ssa.Parameter
 	for _, prm := range KF.Params {
 		if sl, ok := prm.Type().Underlying().(*types.Slice); ok && isByteSlice(sl.Elem()) {
@@ -319,10 +334,7 @@ func checkKeepMask(p *Program, r *Report) {
 		}
 		nCmp++
 	})
-	if nCmp == 0 && len(bad) == 0 {
-		bad = append(bad, "no store into the mask compares a record's value with its predecessor's")
-	}
-	r.Check(len(bad) == 0, construct, p.Pos(KF.Pos()), "every entry is true or values[i-1] != values[i] for i = 1..n-1, step 1, unconditional", strings.Join(dedupStrings(sortStr(bad)), "; "))
+	return bad, nCmp
 }
 
 // checkEncodeEach (C02.encode-each): the encoded value of record i is the
@@ -380,6 +392,39 @@ func checkEncodeEach(p *Program, r *Report) {
 		return false
 	}
 	instrsOf(V, func(b *ssa.BasicBlock, in ssa.Instruction) {
+		// indexed form: vals[i] = e.Encode(...)
+		if st, ok := in.(*ssa.Store); ok {
+			ia, ok := st.Addr.(*ssa.IndexAddr)
+			if !ok {
+				return
+			}
+			sl, ok := ia.X.Type().Underlying().(*types.Slice)
+			if !ok || !isByteSlice(sl.Elem()) {
+				return
+			}
+			nApp++
+			header := loopHeaderOf(b)
+			if header == nil {
+				bad = append(bad, "an element is stored outside the record loop at "+p.Pos(st.Pos()))
+				return
+			}
+			ec, ok := st.Val.(*ssa.Call)
+			if !ok || !ec.Call.IsInvoke() || ec.Call.Method.Name() != "Encode" || ec.Call.Value != ssa.Value(encPrm) {
+				bad = append(bad, "the bytes stored at "+p.Pos(st.Pos())+" are not the result of Encode on the encoder (another record's bytes are re-used)")
+				return
+			}
+			// the value encoded and the slot written are those of the same loop index
+			idx := stripConv(ia.Index)
+			if len(ec.Call.Args) != 1 || !dependsOn(ec.Call.Args[0], idx, 0) {
+				bad = append(bad, "the value encoded at "+p.Pos(ec.Pos())+" is not taken at the index of the slot it is stored into")
+			}
+			for i := range header.Preds {
+				if header.Dominates(header.Preds[i]) && !b.Dominates(header.Preds[i]) {
+					bad = append(bad, "the store at "+p.Pos(st.Pos())+" is skipped on some iterations")
+				}
+			}
+			return
+		}
 		call, ok := in.(*ssa.Call)
 		if !ok {
 			return
